@@ -31,6 +31,7 @@ import (
 	"github.com/btcsuite/btcwallet/chain"
 	"github.com/lightningnetwork/lnd/fn/v2"
 	"github.com/lightningnetwork/lnd/input"
+	"github.com/lightningnetwork/lnd/lntypes"
 	"github.com/lightningnetwork/lnd/lnwallet"
 	"github.com/lightningnetwork/lnd/lnwallet/chainfee"
 )
@@ -123,6 +124,9 @@ type vsOffer struct {
 	Start     *int64 `json:"start"`    // Params.StartingFeeRate
 	Immediate bool   `json:"immediate"`
 	Excl      *int64 `json:"excl"`
+	Parent    *[2]int64 `json:"parent"` // unconfirmed parent {fee, weight} (CPFP)
+	Lock      *int64    `json:"lock"`   // required tx locktime
+	WT        string    `json:"wt"`
 	wt        input.WitnessType
 }
 
@@ -350,11 +354,7 @@ func (h *vsHarness) Broadcast(req *BumpRequest) <-chan *BumpResult {
 			idx = -1
 		}
 		vr.insIdx = append(vr.insIdx, idx)
-		v := vIn{Value: in.SignDesc().Output.Value}
-		if ro := in.RequiredTxOut(); ro != nil {
-			rv := ro.Value
-			v.Req = &rv
-		}
+		v := vInView(in)
 		vr.view = append(vr.view, v)
 		// the per-input starting fee rate the input set was built from
 		if pi, ok := h.s.inputs[op]; ok {
@@ -484,9 +484,15 @@ func vsRun(sc *vsScenario, out *vWriter, ci int) {
 		var hh chainhash.Hash
 		hh[0], hh[1], hh[2], hh[3], hh[31] = byte(vInputCount), byte(vInputCount>>8),
 			byte(vInputCount>>16), byte(vInputCount>>24), 0xee
-		u := &lnwallet.Utxo{AddressType: lnwallet.WitnessPubKey,
+		// wallet top-up inputs of every address type (weight class)
+		k := int(uv % 3)
+		u := &lnwallet.Utxo{
+			AddressType: []lnwallet.AddressType{lnwallet.WitnessPubKey,
+				lnwallet.NestedWitnessPubKey, lnwallet.TaprootPubkey}[k],
 			Value: btcutil.Amount(uv), PkScript: vP2WKH,
 			OutPoint: wire.OutPoint{Hash: hh}}
+		vWT[u.OutPoint] = []input.WitnessType{input.WitnessKeyHash,
+			input.NestedWitnessKeyHash, input.TaprootPubKeySpend}[k]
 		h.utxos = append(h.utxos, u)
 		h.opValue[u.OutPoint] = uv
 	}
@@ -520,7 +526,17 @@ func vsRun(sc *vsScenario, out *vWriter, ci int) {
 		if o.Req != nil {
 			req = *o.Req
 		}
-		in := vMakeInput(o.Value, o.wt, req)
+		var parent *input.TxInfo
+		if o.Parent != nil {
+			parent = &input.TxInfo{Fee: btcutil.Amount(o.Parent[0]),
+				Weight: lntypes.WeightUnit(o.Parent[1])}
+		}
+		lt := int64(-1)
+		if o.Lock != nil {
+			lt = *o.Lock
+		}
+		in := vMakeInputEx(o.Value, o.wt, req, parent, lt)
+		o.WT = o.wt.String()
 		h.inputs = append(h.inputs, in)
 		h.opIdx[in.OutPoint()] = i
 		h.opValue[in.OutPoint()] = o.Value
@@ -704,6 +720,39 @@ func vsDirected(d int, seed uint64) *vsScenario {
 	return sc
 }
 
+// vsAnchor enumerates anchor CPFP sweeps: a 330 sat commitment anchor whose
+// parent (the still unconfirmed commitment tx) pays less than / about / more
+// than the sweep offers, budget generous (MaxFeeRate binds) or small
+// (budget/size binds), topped up from the wallet, on every backend.
+func vsAnchor(d int, seed uint64) *vsScenario {
+	r := vNewRng(seed ^ uint64(d+1)*0xc2b2ae3d27d4eb4f)
+	mode := d % 4
+	prate := []int64{r.rng(100, 253), r.rng(900, 1400), r.rng(20_000, 60_000)}[(d/4)%3]
+	generous := (d/12)%2 == 0
+	h0 := int32(r.rng(1000, 700_000))
+	dl := h0 + int32(r.rng(4, 8))
+	sc := &vsScenario{Family: "anchor-cpfp", Mode: mode, Relay: 253, Salt: r.u64(),
+		MaxVB: r.rng(8, 14)}
+	pw := r.rng(700, 2500)
+	a := vsOffer{At: 0, Value: 330, Deadline: vsI32(dl), wt: input.CommitmentAnchor,
+		Parent: &[2]int64{prate * pw / 1000, pw}}
+	if generous {
+		a.Budget = r.rng(20_000, 60_000)
+	} else {
+		a.Budget = r.rng(900, 1500)
+	}
+	if d%2 == 0 {
+		a.Excl = vsI64(1)
+	}
+	sc.Offers = []vsOffer{a}
+	sc.Utxos = []int64{r.rng(80_000, 200_000) * 3, r.rng(300_000, 500_000)*3 + 1}
+	ans := r.rng(300, 1200)
+	for h := h0; h <= dl; h++ {
+		sc.Blocks = append(sc.Blocks, vsBlock{H: h, Ans: ans + r.rng(-40, 40)})
+	}
+	return sc
+}
+
 func vsRandom(r *vrng) *vsScenario {
 	relay := int64(253)
 	if r.intn(5) == 0 {
@@ -816,6 +865,16 @@ func vsRandom(r *vrng) *vsScenario {
 		if r.intn(10) == 0 {
 			o.Excl = vsI64(int64(i + 1))
 		}
+		if r.intn(5) == 0 || (o.wt == input.CommitmentAnchor && r.intn(3) != 0) {
+			p := vPickParent(r)
+			o.Parent = &[2]int64{int64(p.Fee), int64(p.Weight)}
+		}
+		switch r.intn(12) {
+		case 0:
+			o.Lock = vsI64(int64(h0) - r.rng(0, 50)) // reached
+		case 1:
+			o.Lock = vsI64(int64(h0) + r.rng(1, 3)) // matures during the history
+		}
 		sc.Offers = append(sc.Offers, o)
 	}
 	sort.SliceStable(sc.Offers, func(i, j int) bool { return sc.Offers[i].At < sc.Offers[j].At })
@@ -856,6 +915,10 @@ func vSweeperCases(master *vrng, out *vWriter, ci *int, ndir, nrand int) {
 	}
 	for i := 0; i < nrand; i++ {
 		vsRun(vsRandom(master.fork(uint64(*ci))), out, *ci)
+		*ci++
+	}
+	for d := 0; d < 24; d++ {
+		vsRun(vsAnchor(d, master.fork(uint64(*ci)).u64()), out, *ci)
 		*ci++
 	}
 	// known finding C18-F2: fixed witnesses, same on every seed / tier
